@@ -156,12 +156,15 @@ def valOut : Val → Sexp
   | .gen1 _ _ => .atom "G"
   | .genx _ _ _ => .atom "Z"
   | .genf _ _ _ => .atom "Z"
-  | .genfn name _ _ _ => .list [.atom "F", .str name]
-  | .lam _ _ => .atom "lambda"
+  | .genfn _ _ _ _ => .atom "Z"
+  | .lam _ _ => .atom "Z"
 
-/-- a value under its key in a frame: the harness shows a function as `( F key )` -/
+/-- a value under its key in a frame: the harness shows a function there as `( F key )` (`wire_val(v, key)`),
+    anywhere else (choice stack) as `Z` -/
 def valOutK (k : Str) : Val → Sexp
   | .lam _ _ => .list [.atom "F", .str k]
+  | .genfn _ _ _ _ => .list [.atom "F", .str k]
+  | .macro _ => .list [.atom "F", .str k]
   | v => valOut v
 
 def errName : Err → String
